@@ -69,7 +69,7 @@ fn tr_arm(b: &Bar, prev_close: Option<f64>) -> &'static str {
 }
 
 fn run_scalar(ctx: &Ctx) -> Report {
-    let njobs = ctx.pick(320, 3200);
+    let njobs = ctx.pick(3200, 48000);
     let seed = ctx.seed;
     let maxlen = ctx.pick(6000usize, 20000usize);
     let jobs: Vec<usize> = (0..njobs).collect();
@@ -125,7 +125,7 @@ fn run_scalar(ctx: &Ctx) -> Report {
 }
 
 fn run_bars(ctx: &Ctx) -> Report {
-    let njobs = ctx.pick(240, 2400);
+    let njobs = ctx.pick(2400, 36000);
     let seed = ctx.seed;
     let maxlen = ctx.pick(4000usize, 15000usize);
     let amzn = amzn_bars(&format!("{}/examples/data/AMZN.csv", ctx.repo));
@@ -184,8 +184,8 @@ fn bar_alphabet() -> Vec<In> {
 }
 
 fn run_enum(ctx: &Ctx) -> Report {
-    let depth_b = ctx.pick(5, 6);
-    let depth_s = ctx.pick(6, 7);
+    let depth_b = ctx.pick(6, 7);
+    let depth_s = ctx.pick(8, 9);
     let balpha = bar_alphabet();
     let salpha: Vec<In> = [-2.0, 0.0, 1.0, 1.0 + f64::EPSILON, 3.5].iter().map(|x| In::S(*x)).collect();
     let mut jobs = Vec::new();
